@@ -180,6 +180,9 @@ func (s *MonitoredItemService) CreateMonitoredItems(sc *uasc.SecureChannel, r ua
 	}
 
 	sess := s.SubService.srv.Session(req.RequestHeader)
+	if sess == nil {
+		return nil, ua.StatusBadSessionIDInvalid
+	}
 	if sub.Session.AuthTokenID.String() != sess.AuthTokenID.String() {
 		return nil, errors.New("not your subscription, bro")
 	}
@@ -274,6 +277,9 @@ func (s *MonitoredItemService) SetMonitoringMode(sc *uasc.SecureChannel, r ua.Re
 	results := make([]ua.StatusCode, len(req.MonitoredItemIDs))
 
 	sess := s.SubService.srv.Session(req.RequestHeader)
+	if sess == nil {
+		return nil, ua.StatusBadSessionIDInvalid
+	}
 
 	for i := range req.MonitoredItemIDs {
 		id := req.MonitoredItemIDs[i]
@@ -334,6 +340,9 @@ func (s *MonitoredItemService) DeleteMonitoredItems(sc *uasc.SecureChannel, r ua
 	defer s.Mu.Unlock()
 
 	sess := s.SubService.srv.Session(req.RequestHeader)
+	if sess == nil {
+		return nil, ua.StatusBadSessionIDInvalid
+	}
 
 	results := make([]ua.StatusCode, len(req.MonitoredItemIDs))
 	for i := range req.MonitoredItemIDs {
